@@ -54,9 +54,6 @@ func (it *Interp) builtin(fr *frame, b *ssa.Builtin, c *ssa.CallCommon, args []V
 			add = it.sliceVals(y)
 		case *StrV:
 			for _, t := range y.bytes(ts) {
-				if t.op == OpNum {
-					panic(unsupported("append of Num string to []byte"))
-				}
 				add = append(add, t)
 			}
 		}
@@ -69,9 +66,6 @@ func (it *Interp) builtin(fr *frame, b *ssa.Builtin, c *ssa.CallCommon, args []V
 			src = it.sliceVals(y)
 		case *StrV:
 			for _, t := range y.bytes(ts) {
-				if t.op == OpNum {
-					panic(unsupported("copy of Num string"))
-				}
 				src = append(src, t)
 			}
 		}
@@ -162,6 +156,48 @@ func (it *Interp) builtin(fr *frame, b *ssa.Builtin, c *ssa.CallCommon, args []V
 			break
 		}
 		return &IfaceV{}
+	case "String": // unsafe.String(ptr, len)
+		p := args[0].(*Ptr)
+		n := int(it.concInt(args[1].(*Term)))
+		if n == 0 {
+			return concStr("")
+		}
+		if p.isNil() || len(p.path) != 1 {
+			panic(unsupported("unsafe.String on unusual pointer"))
+		}
+		arr := p.cell.v.(*ArrayV)
+		bs := make([]*Term, n)
+		for i := 0; i < n; i++ {
+			bs[i] = arr.e[p.path[0]+i].(*Term)
+		}
+		return strFromBytes(bs)
+	case "StringData":
+		s := args[0].(*StrV)
+		if s.Len() == 0 {
+			return nilPtr()
+		}
+		bs := s.bytes(ts)
+		arr := make([]Value, len(bs))
+		for i, b := range bs {
+			arr[i] = b
+		}
+		return &Ptr{cell: it.newCell(&ArrayV{arr}, nil, "stringdata"), path: []int{0}}
+	case "SliceData":
+		s := args[0].(*SliceV)
+		if s.cell == nil {
+			return nilPtr()
+		}
+		return &Ptr{cell: s.cell, path: []int{s.off}}
+	case "Slice": // unsafe.Slice(ptr, len)
+		p := args[0].(*Ptr)
+		n := int(it.concInt(args[1].(*Term)))
+		if p.isNil() {
+			return &SliceV{}
+		}
+		if len(p.path) != 1 {
+			panic(unsupported("unsafe.Slice on unusual pointer"))
+		}
+		return &SliceV{cell: p.cell, off: p.path[0], len: n, cap: n}
 	case "ssa:wrapnilchk":
 		p := args[0].(*Ptr)
 		if p.isNil() {
